@@ -203,6 +203,8 @@ def cases(draw, tier):
             k = draw(st.sampled_from([p[0] for p in e if p[0] not in ("name", "signed_by",
                                                                        "type")] or ["message"]))
             eset(e, k, draw(st.sampled_from(["", "zz", "a", "0x00", "aa bb", "!!!!",
+                                             # text that is not empty and decodes to nothing
+                                             " ", "\n", "\r\n", "=", "====", "-",
                                              " ".join(["cd"] * 48) + " x",
                                              "\n".join(["0123456789abcdef" * 2] * 6) + "q"])))
         elif d == "dup-field":
@@ -447,7 +449,48 @@ def judge_text(text, root, labels):
     if norm(r2) != norm(res):
         raise Violation("round-trip-changes-verdicts", "%r vs %r" % (norm(res), norm(r2)))
     labels.append("round-trip")
+    # the same once more for an object that has judged the document for ANOTHER root before
+    # (an operator trying the wrong root file first): what it says about this root afterwards,
+    # and what its saved copy says, are the verdicts above
+    try:
+        other = _other_root(root)
+        cert_b = guarded(load, "second load", text)
+        guarded(lambda: cert_b.validate_and_get_values(other), "validation (another root)", text)
+        rb = guarded(lambda: cert_b.validate_and_get_values(root), "validation (this root again)",
+                     text)
+        p3 = tmpfile("saved-b.json")
+        guarded(lambda: cert_b.save_to_jsonfile(p3), "save", text)
+        c3 = guarded(lambda: HSMCertificate.from_jsonfile(p3), "load of the saved file", text)
+        r3 = guarded(lambda: c3.validate_and_get_values(root), "validation after reload", text)
+    except Violation:
+        raise
+    except Exception as e:
+        raise Violation("second-object-raises:%s" % type(e).__name__, "%s; document %s" % (
+            str(e)[:200], text[:1000]))
+    if norm(rb) != norm(r3) or norm(r3) != norm(res):
+        raise Violation("round-trip-changes-verdicts", "an object that validated against "
+                        "another root first says %r, its saved and reloaded copy %r, a fresh "
+                        "object %r" % (norm(rb), norm(r3), norm(res)))
+    labels.append("round-trip:after-another-root")
     return True
+
+
+_OTHER = {}
+
+
+def _other_root(root):
+    if isinstance(root, HSMCertificateRoot):
+        if 1 not in _OTHER:
+            _OTHER[1] = HSMCertificateRoot(certs.pub_uncompressed(certs.sk_from_int(
+                0x1234567)).hex())
+        return _OTHER[1]
+    if 2 not in _OTHER:
+        k = certs.p256_key(0x7654321, role="unrelated-root")
+        _OTHER[2] = HSMCertificateV2ElementX509({
+            "name": "sgx_root", "signed_by": "sgx_root",
+            "message": certs.der_to_b64(certs.cert_der(certs.make_cert(
+                "root", k.public_key(), "root", k, "long")))})
+    return _OTHER[2]
 
 
 def run_case(c):
@@ -541,6 +584,18 @@ def reference_cases(tier, seed):
                 d["targets"][i] = nm
                 out.append({"kind": "text", "v": ver, "text": json.dumps(d),
                             "root_hex": dev.root_pub.hex(), "what": "target"})
+        # ... and in which ONE field of one element is text that is not empty yet decodes to
+        # nothing (or to less than it should): load, verdict, save and reload as for any document
+        for i, e in enumerate(doc["elements"]):
+            for k in e:
+                if k in ("name", "signed_by", "type"):
+                    continue
+                for val in (" ", "\n", "\r\n", "=", "====", "-", "", "00", e[k][:2], e[k] + " "):
+                    d = json.loads(json.dumps(doc))
+                    d["elements"][i][k] = val
+                    out.append({"kind": "text", "v": ver, "text": json.dumps(d),
+                                "root_hex": dev.root_pub.hex(),
+                                "what": "field:%s.%s" % (e["name"], k)})
     return out
 
 
